@@ -4,7 +4,7 @@ from ..fdai import EnumV, AggV, K, SymV, RefV, Cell, Loc, TOP, load
 from . import dispatch as D
 
 LEVEL = "other"
-TECHNIQUE = "abstract interpretation (constant folding of the MIR of mnemonic_compare / mnemonic_match / mnemonic_split_index / Token::match_program_header, helpers analysed in place) over class-representative definition/candidate strings, compared with a reference statement of the SCPI rule; plus, for every conversion that recognises keywords (floats, integers, NumericValue, Auto), the conversion folded on the keyword and on the keyword with a numeric suffix appended (keywords take no suffix)"
+TECHNIQUE = "abstract interpretation (constant folding of the MIR of mnemonic_compare / mnemonic_match / mnemonic_split_index / Token::match_program_header, helpers analysed in place) over class-representative definition/candidate strings, compared with a reference statement of the SCPI rule; plus, for every conversion that recognises keywords (floats, integers, NumericValue, Auto), the conversion folded on the keyword and on the keyword with a numeric suffix appended (keywords take no suffix); candidates of the maximal length reach the matcher (named rows of the lexer's element tables)"
 LEVEL_TEXT = "The three matching functions are folded by the analyser - not executed - on every candidate that agrees, differs in case or differs in letter per position (plus digit/underscore endings and one extra byte) for every SCPI-shaped definition up to 4 bytes, on every prefix / single-position deviation of four 12-byte definitions and on every library keyword; the suffix rule is folded over {absent,1,2,12}^2-style suffix pairs including leading-zero forms; the result must equal the reference rule on every point and must be decided (a single boolean) on every point. Keyword recognition is checked on the conversions themselves (36 keyword/type pairs): short and long form accepted alike, a numeric suffix not."
 LEVEL_NOTE = "Not decided: definitions and candidates beyond the enumerated representatives (the extension to all strings up to 12 bytes rests on the matching loop treating every byte position alike); definitions outside SCPI shape. Trusted: rustc MIR, the analyser's models of core slice/iterator/Option APIs (sa/scpi_models.py), the reference rule in this file."
 
